@@ -222,3 +222,12 @@ impl DevInputWriter {
   }
 }
 
+
+// Verification hook (no behaviour change): build a DevInputWriter from an
+// existing file descriptor (e.g. a pipe) instead of opening /dev/uinput.
+#[cfg(ellbur_totalmapper_verif)]
+impl DevInputWriter {
+  pub fn verif_from_fd(fd: RawFd) -> DevInputWriter {
+    DevInputWriter { fd }
+  }
+}
